@@ -226,7 +226,7 @@ def judge(ctx, mon, g, pkeys, case, inp, o, key, tree_limit):
         ctx.violation("ambiguities-miscounted", case, "forest.ambiguities=%s, links with >1 distinct alternative=%s (with >1 alternative: %s)" % (amb, amb_distinct, amb_raw), known=known)
     ctx.count("ambiguities_compared")
     # --- indexing -----------------------------------------------------------
-    for idx in (n, n + 7, 10**30):
+    for idx in (n, n + 7, n * 3 + 10**30):
         ctx.count("index.out_of_range_checked")
         for getter, nm in ((f.__getitem__, "forest[i]"), (f.get_nonlazy_tree, "get_nonlazy_tree")):
             try:
